@@ -148,14 +148,32 @@ fn outcome_class(c: &str) -> String {
 }
 
 /// evaluate the text and its printed form; both must end in an allowed outcome and give the same trace
+fn run_neutral(text: &str, cfg: &vcore::Cfg) -> Value {
+    const NEUTRAL: &str = "Function.prototype.toString = function () { return \"function\" };";
+    let r = std::panic::catch_unwind(std::panic::AssertUnwindSafe(|| {
+        let mut ctx = vcore::make_context(cfg);
+        ctx.eval(boa_engine::Source::from_bytes(NEUTRAL.as_bytes())).expect("neutraliser");
+        let (lines, completion, _) = vcore::eval_in(&mut ctx, text, cfg);
+        json!({"lines": lines, "completion": completion})
+    }));
+    match r {
+        Ok(v) => v,
+        Err(_) => {
+            vcore::set_mode("");
+            let lines = vcore::take_lines();
+            json!({"lines": lines, "completion": format!("RustPanic {}", vcore::take_last_panic())})
+        }
+    }
+}
+
 fn eval_both(src: &[u8], printed: &str, st: &mut Stats) {
     let Ok(text) = std::str::from_utf8(src) else { return };
     let cfg = vcore::Cfg { loop_limit: Some(2000), recursion_limit: Some(64), ..vcore::Cfg::default() };
     // the source text of a function is the one thing that legitimately differs between a text and its printed form
     // (`${ a => a }` evaluates to the function's own source): Function.prototype.toString is made constant for both runs
-    const NEUTRAL: &str = "Function.prototype.toString = function () { return \"function\" };\n";
-    let a = vcore::run_case(&format!("{NEUTRAL}{text}"), &cfg);
-    let b = vcore::run_case(&format!("{NEUTRAL}{printed}"), &cfg);
+    // (installed by a script of its own, evaluated before the text: prefixing the text would change how it parses)
+    let a = run_neutral(text, &cfg);
+    let b = run_neutral(printed, &cfg);
     st.evaluated += 1;
     let ca = a["completion"].as_str().unwrap_or("").to_string();
     *st.outcomes.entry(outcome_class(&ca)).or_insert(0) += 1;
